@@ -48,11 +48,13 @@ VocabCases == UNION {VocabCasesOf(t) : t \in TokLists}
 
 ByteStrs == UNION {[1..k -> 1..NB] : k \in 2..MaxEntry}
 Tables == IF ~Fam("bpe") THEN {} ELSE {t \in UNION {[1..k -> ByteStrs] : k \in 0..MaxTab} : B!WellFormed(t)}
+\* limits that leave no room for merges, or not even for the 256 bytes and the special tokens (family option LOWMV)
+LowMv == IF "LOWMV" \in DOMAIN IOEnv THEN {1, 64, 255, 256, 257} ELSE {}
 BpeCasesOf(t, texts) ==
     { [kind |-> "bpe", special |-> Sp(<<"<pad>", "<b>">>, "<pad>", w[1], w[2]), g |-> FALSE, pad_to |-> 0,
        groups |-> "bytes", agg |-> "mean", unk |-> "<u>", tabslots |-> t, max_vocab |-> mv, bslots |-> texts] :
          w \in {<< <<>>, <<>> >>, << <<"<b>">>, <<"<pad>">> >>},
-         mv \in {0} \cup {258 + k : k \in 0..Len(t)} }
+         mv \in {0} \cup {258 + k : k \in 0..Len(t)} \cup LowMv }
 BpeCases == IF ~Fam("bpe") THEN {} ELSE LET texts == SetToSeq(SeqsOver(0..NB, MaxLen)) IN UNION {BpeCasesOf(t, texts) : t \in Tables}
 
 Cases == TextCases \cup VocabCases \cup BpeCases
